@@ -7,6 +7,7 @@ mod c02;
 mod c03;
 mod c04;
 mod c05;
+mod c07;
 mod c08;
 mod c09;
 mod c10;
@@ -54,6 +55,7 @@ fn main() {
             "C03" => c03::replay(&case),
             "C04" => c04::replay(&case),
             "C05" => c05::replay(&case),
+            "C07" => c07::replay(&case),
             "C08" => c08::replay(&case),
             "C09" => c09::replay(&case),
             "C10" => c10::replay(&case),
@@ -86,6 +88,7 @@ fn main() {
         "C03" => c03::run(tier),
         "C04" => c04::run(tier),
         "C05" => c05::run(tier),
+        "C07" => c07::run(tier),
         "C08" => c08::run(tier),
         "C09" => c09::run(tier),
         "C10" => c10::run(tier),
